@@ -81,4 +81,65 @@ Section Verify.
     destruct (proj1 Hg _ _ Hw A eq_refl HA) as (p & Hr & Hp & Hs).
     exists (mkProd A (body p)). split; auto. apply Hin. exists A, p. auto.
   Qed.
+
+  (** DEL keeps "every non-terminal generates a non-empty string" *)
+  Lemma del_all_yield (G G' : gram) : wf G -> all_yield G -> del teqb neqb fresh G = Ok G' -> all_yield G'.
+  Proof.
+    intros Hwf Hy H. unfold del in H.
+    destruct (nullable neqb (prods G)) as [nl| |] eqn:En; simpl in H; try discriminate.
+    destruct (nullable_spec neqb neqb_spec _ _ En) as [_ Hnl].
+    set (P2 := del_prods teqb neqb nl (prods G) []) in *.
+    assert (HP2 : forall q, In q P2 <-> del_member nl (prods G) q).
+    { intros q. unfold P2. rewrite In_del_prods; auto. split; auto. intros [[]|?]; auto. }
+    destruct (del_forward (prods G) nl Hnl P2 HP2) as [Hf _].
+    destruct (mem_n neqb (start G) nl).
+    - destruct (add_new fresh Prime (nonterms G) (start G)) as [[s' nts']| |] eqn:Ea; simpl in H; try discriminate.
+      inversion H; subst G'. clear H.
+      destruct (add_new_spec fresh fresh_spec _ _ _ _ _ Ea) as [_ ->].
+      set (P' := add_p teqb neqb (mkProd s' []) (add_p teqb neqb (mkProd s' [Nt (start G)]) P2)).
+      assert (Hmono : forall s w, gen P2 s w -> gen P' s w).
+      { assert (Hi : incl P2 P') by (intros q Hq; unfold P'; rewrite !In_add_p; auto).
+        apply (proj1 (gen_mono P2 P' Hi)). }
+      intros A HA. simpl in HA. apply in_app_iff in HA. destruct HA as [HA|[<-|[]]].
+      + destruct (Hy A HA) as (w & Hw & Hg). exists w. split; [exact Hw|]. simpl. apply Hmono. now apply Hf.
+      + destruct (Hy (start G) (proj1 Hwf)) as (w & Hw & Hg). exists w. split; [exact Hw|]. simpl.
+        apply gen_nt_intro with (b := [Nt (start G)]).
+        * unfold P'. rewrite !In_add_p; auto.
+        * apply gens_single. apply Hmono. now apply Hf.
+    - inversion H; subst G'. clear H. intros A HA. simpl in *.
+      destruct (Hy A HA) as (w & Hw & Hg). exists w. split; [exact Hw|]. now apply Hf.
+  Qed.
+
+  Theorem unreachable_valid (G G' : gram) : valid G -> unreachable_elim teqb neqb G = Ok G' -> valid G'.
+  Proof.
+    intros [Hwf Hall] H.
+    pose proof (ok_or_names_ok _ _ _ (unreachable_total teqb neqb teqb_spec neqb_spec G Hwf) H) as [_ Hwf'].
+    split; auto.
+    unfold unreachable_elim in H.
+    destruct (reach neqb (prods G) [start G]) as [rn| |] eqn:Er; simpl in H; try discriminate.
+    inversion H; subst G'. clear H. simpl.
+    destruct (reach_spec neqb neqb_spec (prods G) [start G] rn) as [_ Hr]; auto.
+    { constructor; [intros []|constructor]. }
+    intros A HA.
+    assert (HAn : In A (nonterms G)).
+    { apply Hr in HA. destruct Hwf as [Hs Hp]. induction HA as [A HA|p B Hp' _ _ HB].
+      - destruct HA as [<-|[]]. exact Hs.
+      - destruct (Hp p Hp') as [_ Hb]. apply (Hb (Nt B) HB). }
+    destruct (Hall A HAn) as (p & Hp & Hh). exists p. split; auto.
+    apply filter_In. split; auto. apply (mem_n_In neqb neqb_spec). now rewrite Hh.
+  Qed.
+
+  (** EliminateCycles passes Verify() when every non-terminal of the input generates a non-empty
+      string (the domain that excludes the signature of D09c) *)
+  Theorem cycles_valid (G G' : gram) : wf G -> all_yield G -> cycles_elim teqb neqb fresh G = Ok G' -> valid G'.
+  Proof.
+    intros Hwf Hy H. unfold cycles_elim in H.
+    destruct (del teqb neqb fresh G) as [G1| |] eqn:H1; simpl in H; try discriminate.
+    destruct (unit_elim teqb neqb G1) as [G2| |] eqn:H2; simpl in H; try discriminate.
+    pose proof (ok_or_names_ok _ _ _ (del_total teqb neqb fresh teqb_spec neqb_spec fresh_spec G Hwf) H1) as [_ Hwf1].
+    pose proof (del_all_yield G G1 Hwf Hy H1) as Hy1.
+    assert (Hp1 : all_productive G1) by (intros A HA; destruct (Hy1 A HA) as (w & _ & Hg); eauto).
+    pose proof (unit_valid G1 G2 Hwf1 Hp1 H2) as Hv2.
+    exact (unreachable_valid G2 G' Hv2 H).
+  Qed.
 End Verify.
